@@ -29,8 +29,8 @@ META = {
 CAP = Poly.const(500)
 
 
-def input_sparse(interp, name, pattern="P"):
-    o = T.new_sparse(Term("input", [Const(name)]), pattern, ("in",), None, fmt="csr")
+def input_sparse(interp, name, pattern="P", fmt="csr"):
+    o = T.new_sparse(Term("input", [Const(name)]), pattern, ("in",), None, fmt=fmt)
     idx, ext = T.sparse_entry_dim(interp, o)
     o.attrs["data"] = Grid([[(idx, ext)]], Num(Poly.app("at", name, Poly.atom(idx))))
     return o
@@ -65,6 +65,14 @@ def strip_conv(t):
 
 
 def run(ctx, repo, tier):
+    for fmt in ("csr", "coo"):
+        run_context(ctx, repo, tier, fmt)
+    ctx.require_instances("KERNEL", 20, "kernel statements interpreted (two storage forms)")
+    ctx.trust(*META["trusted"])
+    ctx.assume(*META["assumptions"])
+
+
+def run_context(ctx, repo, tier, fmt):
     fi = repo.func("molgri.molecules.transitions", "SQRA.get_rate_matrix")
     ci = repo.cls("molgri.molecules.transitions", "SQRA")
     ctx.analysed(fi)
@@ -72,8 +80,9 @@ def run(ctx, repo, tier):
     interp = Interp(repo, Hooks())
     n = Poly.sym("n")
     self_obj = ObjV(cls=ci)
-    S = input_sparse(interp, "S")
-    h = input_sparse(interp, "h")
+    S = input_sparse(interp, "S", fmt=fmt)
+    h = input_sparse(interp, "h", fmt=fmt)
+    before = {"S": vkey(S.attrs["data"]), "h": vkey(h.attrs["data"])}
     self_obj.attrs.update({"energies": T.vec(interp, "E", n), "volumes": T.vec(interp, "V", n),
                            "distances": h, "surfaces": S})
     # constructor wiring: SQRA(energies, volumes, distances, surfaces) stores each argument under its own name
@@ -90,7 +99,25 @@ def run(ctx, repo, tier):
             ctx.check(isinstance(got, Const) and got.v == v.v, "FLOW", f"C01.init.{k}",
                       f"SQRA.__init__ stores argument `{k}` as self.{k}", init.where, f"self.{k} = ...",
                       witness=f"self.{k} holds {vstr(got) if got is not None else 'nothing'}")
+    E0, V0 = self_obj.attrs["energies"], self_obj.attrs["volumes"]
     res = interp.call_function(fi, [Num(Poly.sym("D")), Num(Poly.sym("T"))], {}, self_obj=self_obj)
+    # ---------------- O6: the inputs are not modified by the call (history independence: a second call sees the same S, h, V, E)
+    ctx.instance("KERNEL")
+    changed = []
+    for nm_, ob_ in (("surfaces", S), ("distances", h)):
+        if vkey(ob_.attrs.get("data")) != before["S" if nm_ == "surfaces" else "h"] or ob_.stores or \
+                self_obj.attrs.get(nm_) is not ob_:
+            changed.append(nm_)
+    if self_obj.attrs.get("energies") is not E0 or self_obj.attrs.get("volumes") is not V0:
+        changed.append("energies/volumes")
+    if changed:
+        ctx.violate("KERNEL", f"C01.O6.{fmt}", f"get_rate_matrix overwrites its own input ({', '.join(changed)}) when the matrices are given "
+                    f"in {fmt} form: a conversion that returns the same object is followed by an in-place update, so the second call on "
+                    "the same object computes from the previous call's rates", fi.where, "transition_matrix.data = ... / transition_matrix.data *= ...",
+                    witness=f"{changed[0]}.data after the call: {vstr(self_obj.attrs[changed[0]].attrs.get('data'))[:200] if changed[0] in ('surfaces', 'distances') else ''}")
+    else:
+        ctx.ok("KERNEL", f"C01.O6.{fmt}", f"inputs are left unmodified ({fmt} storage form): the result is a function of the inputs, not of "
+               "earlier calls", fi.where)
     for f in interp.functions_entered:
         ctx.analysed(f)
     ctx.call_sites += len(interp.functions_entered)
@@ -218,6 +245,13 @@ def run(ctx, repo, tier):
         diagnosed = False
         if exp_arg.is_monomial():
             c2, at2 = exp_arg.single_term()
+            two = [a for a in at2 if a[0] == "app" and a[1] == "clamp"]
+            if two:
+                diagnosed = True
+                ctx.violate("COEF", "C01.O3.cap", "the cap is two-sided: energy differences below the lower bound are raised to it, so the "
+                            "entry of the uphill direction of a pair more than 500 kJ/mol apart is not D*S/(h*V)*exp((E_i-E_j)/(2RT)); "
+                            "the documented overflow cap limits the difference from above only", where, "np.clip(diff_energies, lo, hi)",
+                            witness=f"exponent = {exp_arg.pretty()[:200]}")
             clamp = [a for a in at2 if a[0] == "app" and a[1] in ("clamp_hi", "clamp_sym")]
             lin = None
             if clamp:
@@ -298,6 +332,11 @@ def run(ctx, repo, tier):
             ctx.violate("KERNEL", "C01.O5.same_data", "the returned off-diagonal data differs from the data whose row "
                         "sums form the diagonal (a factor was applied before/after summing)", where,
                         construct="sums = transition_matrix.sum(axis=1)", witness=f"summed: {got} ; returned: {q.pretty()}")
+    elif isinstance(v, Term) and v.op == "reduceat":
+        ctx.violate("KERNEL", "C01.O5.vals", "row sums are taken with ufunc.reduceat over the CSR row pointer: for a row without stored "
+                    "entries reduceat returns the first entry of the NEXT row (or raises IndexError for the last row) instead of 0, so a "
+                    "cell without neighbours gets a non-zero diagonal and its row does not sum to zero", where,
+                    "np.add.reduceat(matrix.data, matrix.indptr[:-1])", witness=vstr(v)[:200])
     else:
         r = contains_top(vals)
         (ctx.inconclusive if r else ctx.violate)("KERNEL", "C01.O5.vals", "diagonal values are not (minus) the row sums of "
@@ -321,6 +360,3 @@ def run(ctx, repo, tier):
     # raises / asserts inside the kernel
     for kind, guards, w in interp.raises:
         ctx.notes.append(f"raise {kind} at {w}")
-    ctx.require_instances("KERNEL", 10, "kernel statements interpreted")
-    ctx.trust(*META["trusted"])
-    ctx.assume(*META["assumptions"])
